@@ -1,6 +1,7 @@
 use std::{
     path::{Path, PathBuf},
     env::current_dir, sync::OnceLock, fs::ReadDir,
+    ffi::OsStr, os::unix::ffi::OsStrExt,
 };
 
 use regex::Regex;
@@ -50,18 +51,16 @@ fn ls_file_dir(file: &Path) -> Result<ReadDir> {
     Ok(ls_dir)
 }
 
-fn filename(path: &Path) -> Result<String> {
-    let fname = path.file_name()
-        .ok_or(XcpError::InvalidArguments(format!("Invalid path found: {:?}", path)))?
-        .to_string_lossy();
-    Ok(fname.to_string())
+fn filename(path: &Path) -> Result<&OsStr> {
+    path.file_name()
+        .ok_or(XcpError::InvalidArguments(format!("Invalid path found: {:?}", path)).into())
 }
 
 fn has_backup(file: &Path) -> Result<bool> {
     let fname = filename(file)?;
     let exists = ls_file_dir(file)?
         .any(|der| if let Ok(de) = der {
-            is_num_backup(&fname, &de.path()).is_some()
+            is_num_backup(fname, &de.path()).is_some()
         } else {
             false
         });
@@ -71,24 +70,24 @@ fn has_backup(file: &Path) -> Result<bool> {
 fn next_backup_num(file: &Path) -> Result<u64> {
     let fname = filename(file)?;
     let current = ls_file_dir(file)?
-        .filter_map(|der| is_num_backup(&fname, &der.ok()?.path()))
+        .filter_map(|der| is_num_backup(fname, &der.ok()?.path()))
         .max()
         .unwrap_or(0);
     Ok(current + 1)
 }
 
-fn is_num_backup(base_file: &str, candidate: &Path) -> Option<u64> {
+// A candidate is a numbered backup of `base_file` if its name is
+// exactly `<base_file>.~N~`. Names are compared as bytes, as they
+// need not be valid UTF-8.
+fn is_num_backup<S: AsRef<OsStr> + ?Sized>(base_file: &S, candidate: &Path) -> Option<u64> {
     let cname = candidate
         .file_name()?
-        .to_str()?;
-    if !cname.starts_with(base_file) {
-        return None
-    }
-    let ext = candidate
-        .extension()?
-        .to_string_lossy();
+        .as_bytes();
+    let ext = cname
+        .strip_prefix(base_file.as_ref().as_bytes())?
+        .strip_prefix(b".")?;
     let num = get_regex()
-        .captures(&ext)?
+        .captures(std::str::from_utf8(ext).ok()?)?
         .get(1)?
         .as_str()
         .parse::<u64>()
